@@ -248,6 +248,10 @@ int tls13_send(TLS_CONNECT *conn, const uint8_t *data, size_t datalen, size_t *s
 
 	tls_trace("send {ApplicationData}\n");
 
+	if (datalen > TLS_MAX_PLAINTEXT_SIZE) {
+		datalen = TLS_MAX_PLAINTEXT_SIZE;
+	}
+
 	if (conn->is_client) {
 		key = &conn->client_write_key;
 		iv = conn->client_write_iv;
@@ -272,7 +276,10 @@ int tls13_send(TLS_CONNECT *conn, const uint8_t *data, size_t datalen, size_t *s
 	record[4] = (uint8_t)(recordlen);
 	recordlen += 5;
 
-	tls_record_send(record, recordlen, conn->sock);
+	if (tls_record_send(record, recordlen, conn->sock) != 1) {
+		error_print();
+		return -1;
+	}
 	tls_record_trace(stderr, record, tls_record_length(record), 0, 0);
 
 	tls_seq_num_incr(seq_num);
